@@ -191,3 +191,96 @@ func HarnessEndToEnd() {
 	verif.Quiesce()
 	verif.Reach("end-to-end-done")
 }
+
+// CH hands out streams whose producers are driven step by step by the harness.
+type CH struct {
+	feed map[int]chan int64 // values to forward on stream tag; closing it closes the stream
+}
+
+func (h *CH) Sub(ctx context.Context, tag int) (<-chan int64, error) {
+	out := make(chan int64)
+	in := h.feed[tag]
+	go func() {
+		defer close(out)
+		for v := range in {
+			select {
+			case out <- v:
+			case <-ctx.Done():
+				return
+			}
+		}
+	}()
+	return out, nil
+}
+
+// HarnessManyStreams: S (3 or 4) subscriptions on one connection; the harness
+// chooses which stream is closed first and then sends on the survivors: values
+// and closes keep reaching the channel id announced for their own subscription.
+func HarnessManyStreams() {
+	n := 3 + verif.Choice("extra_stream", verif.Bound("S", 3)-2)
+	h := &CH{feed: map[int]chan int64{}}
+	for i := 0; i < n; i++ {
+		h.feed[i] = make(chan int64)
+	}
+	srv := jsonrpc.NewServer()
+	srv.Register("H", h)
+	pc := verif.DialRaw(srv, nil)
+	chanOf := map[int]float64{}
+	for i := 0; i < n; i++ {
+		b, _ := json.Marshal(map[string]interface{}{"jsonrpc": "2.0", "id": 100 + i, "method": "H.Sub", "params": []interface{}{i}})
+		pc.Send(b)
+		rb, ok := pc.Recv()
+		verif.Assert(ok, "subscription-answered")
+		var f frame
+		json.Unmarshal(rb, &f)
+		id, _ := f.ID.(float64)
+		verif.Assert(f.Method == "" && id == float64(100+i), "response-for-this-subscription")
+		var ch float64
+		json.Unmarshal(f.Result, &ch)
+		chanOf[i] = ch
+	}
+	first := verif.Choice("close_first", n)
+	close(h.feed[first])
+	expectFrame := func(method string, tag int, val int64) {
+		rb, ok := pc.Recv()
+		verif.Assert(ok, "connection-stays-up")
+		if !ok {
+			return
+		}
+		var f frame
+		json.Unmarshal(rb, &f)
+		verif.Assert(f.Method == method, "expected-frame-kind")
+		var ch float64
+		if len(f.Params) > 0 {
+			json.Unmarshal(f.Params[0], &ch)
+		}
+		verif.Assert(ch == chanOf[tag], "frame-carries-its-own-channel-id")
+		if method == "xrpc.ch.val" && len(f.Params) > 1 {
+			var v int64
+			json.Unmarshal(f.Params[1], &v)
+			verif.Assert(v == val, "value-intact")
+		}
+	}
+	expectFrame("xrpc.ch.close", first, 0)
+	// every survivor sends a distinct symbolic value, then closes, one after the other
+	for i := 0; i < n; i++ {
+		if i == first {
+			continue
+		}
+		v := verif.Int("v" + string(rune('0'+i)))
+		h.feed[i] <- v
+		expectFrame("xrpc.ch.val", i, v)
+	}
+	second := verif.Choice("close_second", n)
+	for k := 0; k < n; k++ {
+		i := (second + k) % n
+		if i == first {
+			continue
+		}
+		close(h.feed[i])
+		expectFrame("xrpc.ch.close", i, 0)
+	}
+	pc.CloseGraceful()
+	verif.Quiesce()
+	verif.Reach("many-streams-done")
+}
